@@ -1,7 +1,7 @@
 #!/bin/bash
 # regress_seeded.sh : run every kept seeded change against its property's quick check (applies to /repo, reverts)
 cd /verif
-for d in seeded/*/; do
+for d in seeded/[A-Z]*/; do
   m=$(basename $d); p=$(python3 -c "import json;print(json.load(open('$d/meta.json'))['property'])")
   out=$(/venv/bin/python tools/seeded.py run $d $p 2>&1)
   echo "$m $p $(echo "$out" | grep -E '^VIOLATION' | head -1 | sed 's/replay=[^ ]*//') $(echo "$out" | grep -c 'exit 0' | sed 's/1/MISSED/;s/0//')"
